@@ -70,14 +70,15 @@ Observable == DocLocs \cup {"bodyDecoders", "bodyEncoders", "formats_string", "f
 
 (* ------------------------------------------------------------------ the product catalogue: entry x schema feature *)
 Entries == {"visit", "visit_typed", "visit_opts", "param_query", "param_header", "param_multi",
-            "req_body", "resp_body", "resp_header", "middleware"}
+            "req_body", "resp_body", "resp_header", "middleware",
+            "param_query_legacy", "req_body_legacy"}      \* the same calls with the route the legacy router returns (its stored *Route, not a copy)
 (* entries that hand the visit no SchemaValidationOption at all *)
-OptionLess == {"visit", "visit_typed", "param_query", "param_header", "resp_header"}
+OptionLess == {"visit", "visit_typed", "param_query", "param_header", "resp_header", "param_query_legacy"}
 Features == {"not", "anyof", "oneof", "allof", "pattern", "format_date", "format_custom", "format_int32", "number",
              "enum", "minmax", "unique", "object", "discriminator"}
 (* object-valued features cannot be a styled query / header value of the catalogue's shapes; the parameter / header *)
 (* decoders do not implement 'not' (they answer "not implemented: decoding 'not'": a stated limit, outside C15)     *)
-Usable(e, f) == f \in {"object", "discriminator", "not"} => e \in {"visit", "visit_typed", "visit_opts", "req_body", "resp_body", "middleware"}
+Usable(e, f) == f \in {"object", "discriminator", "not"} => e \in {"visit", "visit_typed", "visit_opts", "req_body", "resp_body", "middleware", "req_body_legacy"}
 (* the typed visitors (VisitJSONString, ...Number, ...Array, ...Object) check the keywords of that type only: the  *)
 (* features below are not looked at by them                                                                        *)
 NotTyped == {"not", "anyof", "oneof", "allof", "enum", "discriminator"}
@@ -100,7 +101,7 @@ FlatOps == {"find_mux", "find_legacy", "find_mux_servers", "find_legacy_servers"
             "vreq_body_defaults", "vresp", "visitjson", "gen_newtype", "gen_sametype", "gen_nested", "gen_customizer",
             "vreq_body_pattern_customregex", "vreq_secure_body",
             "vreq_multipart_addprops", "vreq_json_addprops", "vreq_form_sharedopts", "vreq_json_defaults_sharedopts",
-            "load_cached"}
+            "load_cached", "doc_marshal"}
 (* documented writers: never part of the validation-time catalogue; in the model to show WHY (WithWriters has a counterexample) *)
 WriterOps == {"w_doc_validate", "w_new_legacy_router", "w_register_decoder", "w_define_format", "w_register_unique"}
 
@@ -108,6 +109,7 @@ Ops == ProductOps \cup MtOps \cup {<<o, "-">> : o \in FlatOps} \cup (IF WithWrit
 
 (* ------------------------------------------------------------------ access sequences *)
 Find == <<Acc("R", "mux")>> \o (IF RouteCopied THEN <<>> ELSE <<Acc("W", "mux.route"), Acc("R", "mux.route")>>)
+FindLegacy == <<Acc("R", "legacy"), Acc("R", "doc.paths"), Acc("R", "legacy.route")>>      \* the caller reads the router's own Route value
 SharedSettings(e) == e \in OptionLess /\ ~SettingsPerCall
 SettingsRead(e) == IF SharedSettings(e) THEN <<Acc("R", "settings_default")>> ELSE <<>>
 SettingsToggle(e) == IF SharedSettings(e) /\ ~VisitReadsSettings THEN <<Acc("W", "settings_default"), Acc("W", "settings_default")>>
@@ -126,6 +128,9 @@ EntryAcc(e) ==
      [] e \in {"param_query", "param_header", "param_multi"} ->
           Find \o <<Acc("R", "doc.pathitem.parameters"), Acc("R", "doc.operation.parameters"), Acc("R", "doc.schema")>>
      [] e \in {"req_body", "mt_req"} -> Find \o <<Acc("R", "doc.operation"), Acc("R", "doc.schema")>>
+     [] e = "param_query_legacy" ->
+          FindLegacy \o <<Acc("R", "doc.pathitem.parameters"), Acc("R", "doc.operation.parameters"), Acc("R", "doc.schema")>>
+     [] e = "req_body_legacy" -> FindLegacy \o <<Acc("R", "doc.operation"), Acc("R", "doc.schema")>>
      [] e \in {"resp_body", "mt_resp"} -> Find \o <<Acc("R", "doc.operation"), Acc("R", "jsonPrefixes"), Acc("R", "doc.schema")>>
      [] e = "resp_header" -> Find \o <<Acc("R", "doc.operation"), Acc("R", "doc.schema")>>
      [] e = "middleware" -> <<Acc("R", "middleware")>> \o Find \o <<Acc("R", "doc.operation"), Acc("R", "doc.schema"), Acc("R", "jsonPrefixes")>>
@@ -173,6 +178,9 @@ FlatAcc(op) ==
           IF UriCacheLocked
           THEN <<Acc("L", "uriMu"), Acc("R", "uriCache"), Acc("U", "uriMu"), Acc("L", "uriMu"), Acc("W", "uriCache"), Acc("U", "uriMu")>>
           ELSE <<Acc("R", "uriCache"), Acc("W", "uriCache")>>
+     [] op = "doc_marshal" ->       \* the document served (as JSON) while it is used for validation: a reader of all of it
+          <<Acc("R", "doc.paths"), Acc("R", "doc.pathitem.parameters"), Acc("R", "doc.operation.parameters"), Acc("R", "doc.operation"),
+            Acc("R", "doc.schema"), Acc("R", "doc.schema.properties"), Acc("R", "doc.schema.default"), Acc("R", "doc.security"), Acc("R", "doc.securitySchemes")>>
      (* documented writers *)
      [] op = "w_doc_validate" -> <<Acc("R", "doc.schema"), Acc("W", "doc.paths"), Acc("R", "formats_string")>>        \* fills nil path items
      [] op = "w_new_legacy_router" -> <<Acc("W", "doc.paths"), Acc("W", "legacy")>>                                    \* validates, builds the tree
@@ -184,7 +192,7 @@ Accesses(op) ==
    LET e == op[1]  f == op[2] IN
    IF f = "-" THEN FlatAcc(e)
    ELSE IF e \in MtEntries THEN EntryAcc(e) \o Decoders(MtSent(f) \notin RegisteredAtStart)
-   ELSE SettingsRead(e) \o EntryAcc(e) \o (IF e \in {"req_body", "resp_body", "middleware"} THEN Decoders(FALSE) ELSE <<>>) \o FeatureAcc(e, f)
+   ELSE SettingsRead(e) \o EntryAcc(e) \o (IF e \in {"req_body", "resp_body", "middleware", "req_body_legacy"} THEN Decoders(FALSE) ELSE <<>>) \o FeatureAcc(e, f)
 
 (* the locations an operation writes (plain or atomically) *)
 Writes(op) == {Accesses(op)[i][2] : i \in {j \in DOMAIN Accesses(op) : Accesses(op)[j][1] \in {"W", "A"}}}
